@@ -2572,8 +2572,11 @@ class QueryTaxResult:
             display_rank_results = [self.classification_result]
         else:
             self.check_summarization()
-            display_rank_results = self.summarized_lineage_results[display_rank]
-            display_rank_results.sort(key=lambda res: -res.f_weighted_at_rank)
+            # sort a copy: the per-rank lists are shared with the other writers
+            display_rank_results = sorted(
+                self.summarized_lineage_results[display_rank],
+                key=lambda res: -res.f_weighted_at_rank,
+            )
 
         for res in display_rank_results:
             results.append(res.as_human_friendly_dict(query_info=self.query_info))
@@ -2631,9 +2634,9 @@ class QueryTaxResult:
                     if int(rank) not in lingroup_ranks:
                         continue
                 unclassified = []
-                rank_results = self.summarized_lineage_results[rank]
-                rank_results.sort(
-                    key=lambda res: -res.fraction
+                # sort a copy: the per-rank lists are shared with the other writers
+                rank_results = sorted(
+                    self.summarized_lineage_results[rank], key=lambda res: -res.fraction
                 )  # v5?: f_weighted_at_rank)
                 for res in rank_results:
                     rD = res.as_summary_dict(
